@@ -239,6 +239,8 @@ def explore_shape(prop, SH, OR, shape, validate=True, max_paths=None):
     while True:
         eng.start_run()
         inp = obs = None
+        loader.reset_state(SH)
+        loader.reset_state(OR)
         try:
             _COV_ACTIVE[0] = True
             inp = prop.build(shape)
@@ -367,6 +369,8 @@ def _worker_init(prop_id, mutant):
     OR = loader.load_orig(prop.MODULES)
     prop.setup_shadow(SH)
     prop.setup_orig(OR)
+    loader.snapshot_state(SH, prop.MODULES)
+    loader.snapshot_state(OR, prop.MODULES)
     _W.update(prop=prop, SH=SH, OR=OR, mutant=mutant)
 
 
